@@ -56,6 +56,8 @@ func wirePool(a *aspec.ASpec) {
 			o := objSchema(aspec.Prop{Name: "label", Schema: str, Req: true}, aspec.Prop{Name: "n", Schema: aspec.Schema{K: "int32"}})
 			return &o
 		}(), Req: true}})
+	// a body offered in several media types, some sorting before application/json
+	a.RequestBodies = append(a.RequestBodies, aspec.NamedBody{Name: "PooledMulti", Body: aspec.Body{K: "json", Schema: &aspec.Schema{K: "ref", To: "Bag"}, Req: true, Alt: []string{"application/geo+json", "application/cbor", "text/csv"}}})
 	// component responses shared by several operations under different (numbered) statuses, one for defaults only
 	a.Responses = append(a.Responses,
 		aspec.NamedResponse{Name: "SharedProblem", R: &aspec.Response{Desc: "problem", Headers: []aspec.Header{{Name: "X-Next", Schema: str}, {Name: "X-List", Schema: aspec.Schema{K: "array", Items: &str}}}, Body: aspec.Body{K: "json", Schema: &aspec.Schema{K: "ref", To: "Bag"}}}},
@@ -108,7 +110,8 @@ func randSchemaBody(rng *rand.Rand) aspec.Body {
 		o := objSchema(aspec.Prop{Name: "ok", Schema: aspec.Schema{K: "bool"}, Req: true}, aspec.Prop{Name: "ref", Schema: aspec.Schema{K: "ref", To: "Thing"}})
 		return aspec.Body{K: "json", Schema: &o}
 	}
-	return aspec.Body{K: "raw", Media: "application/octet-stream"}
+	// raw bodies: the documented media type is what goes on the wire, whatever it looks like
+	return aspec.Body{K: "raw", Media: []string{"application/octet-stream", "application/problem+json", "text/plain", "application/json; charset=utf-8", "application/vnd.api+json"}[rng.Intn(5)]}
 }
 
 func randHeaders(rng *rand.Rand) []aspec.Header {
@@ -181,7 +184,7 @@ func randWireOp(a *aspec.ASpec, k int, rng *rand.Rand) wireOp {
 	if method != "GET" && method != "DELETE" {
 		op.Body = randSchemaBody(rng)
 		if rng.Intn(4) == 0 {
-			op.Body = aspec.Body{K: "ref", To: []string{"PooledBody", "PooledInline"}[rng.Intn(2)]}
+			op.Body = aspec.Body{K: "ref", To: []string{"PooledBody", "PooledInline", "PooledMulti"}[rng.Intn(3)]}
 		}
 		if op.Body.K == "ref" {
 			// a reference to components.requestBodies
@@ -262,7 +265,20 @@ func respCfg(a *aspec.ASpec, rr aspec.RespRef) map[string]any {
 	}
 	hdrs := []any{}
 	for _, h := range r.Headers {
-		hdrs = append(hdrs, map[string]any{"canon": http.CanonicalHeaderKey(h.Name), "req": h.Req})
+		hs := h.Schema
+		if h.Ref != "" {
+			for _, nh := range a.Headers {
+				if nh.Name == h.Ref {
+					hs = nh.Header.Schema
+				}
+			}
+		}
+		hs = a.ResolveDeep(hs, 0)
+		typ, arr := hs.K, false
+		if hs.K == "array" && hs.Items != nil {
+			typ, arr = hs.Items.K, true
+		}
+		hdrs = append(hdrs, map[string]any{"canon": http.CanonicalHeaderKey(h.Name), "req": h.Req, "nn": driver.Norm(h.Name), "array": arr, "type": typ})
 	}
 	ctype := ""
 	body := map[string]any{"k": r.Body.K, "s": map[string]any{"k": "any", "nullable": false}}
@@ -564,6 +580,18 @@ func checkWire(c *core.Check, which string) {
 				names = append(names, http.CanonicalHeaderKey(k))
 			}
 			sort.Strings(names)
+			hdrVals := []any{}
+			for _, n := range names {
+				vals := []any{}
+				for k, vs := range hdr {
+					if http.CanonicalHeaderKey(k) == n {
+						for _, x := range vs.([]any) {
+							vals = append(vals, "s:"+x.(string))
+						}
+					}
+				}
+				hdrVals = append(hdrVals, map[string]any{"canon": n, "vals": vals})
+			}
 			ctype := ""
 			if v, ok := hdr["Content-Type"].([]any); ok && len(v) > 0 {
 				ctype, _ = v[0].(string)
@@ -571,7 +599,7 @@ func checkWire(c *core.Check, which string) {
 			b, _ := e["body"].(string)
 			bs, _ := base64.StdEncoding.DecodeString(b)
 			add(map[string]any{"ev": "ServerDone", "status": st, "statusText": strconv.Itoa(st), "writes": e["writes"], "isDefault": isDef, "code": code,
-				"ctype": ctype, "hdrNames": names, "body": core.ParseJ(bs), "bodyEmpty": len(bs) == 0})
+				"ctype": ctype, "hdrNames": names, "hdrVals": hdrVals, "body": core.ParseJ(bs), "bodyEmpty": len(bs) == 0})
 		case "ServerPanic":
 			add(map[string]any{"ev": "ServerPanic"})
 		case "Return":
